@@ -612,7 +612,7 @@ Theorem maximum_intensity_hmc_fmc : forall D (V : Data R D), DataLaws V -> foral
 Proof. intros D V L dabs. exact (hmc_fmc_max_intensity_contact V L dabs). Qed.
 
 (* ---- non-vacuity: the glue model computes (exact rationals; every value below was replayed on
-   the real library, see .work/prover_C12_TIE.md) ------------------------------------------- *)
+   the real library, see notes/prover_C12_TIE.md) ------------------------------------------- *)
 Local Close Scope R_scope.
 Local Open Scope Q_scope.
 (* a Points object of shape (2, 1, 3); distances to the elements (0,0,0), (3,0,0) are rational *)
